@@ -247,8 +247,8 @@ import re as _re
 
 WORD_ALPHABET = "abcxyzQ019_-./=:,+%^~*<>|&;@é"
 CURATED_WORDS = ["--opt=val", "1e5x", "a.b/c", "2>&1", "..", ">>=", "**", "...", "1.2.3", "0x", "-la", "a=b", "~/x", "*.py", "a,b", "x:y", "1_000", "1__0", "a->b", ":=", "&&", "||", "|", ">", ">>", "<", "&", ";", "a;b",
-                 "@", "a@b", "+x", "%d", "^a", "0b2", "1.", ".5", "1j", "1e", "e1", "a.b.c", "//", "a//b", "==", "!=".replace("!", "="), "<=", "-", "--", "=", "ñ", "é.txt", "x1y2", "__a__", "match", "case", "type", "_", "a|b", "2>", "1>&2", ">&", "a&b", "@@", "@a", "a@"]
-QUOTED_PIECES = ['"a b"', "'c'", '"x,y"', "'(z'", 'r"\\d"', '"]"', "b'q'", "u'u'", "''", '"$X"', "'#'", '"""t q"""', "R'''a'''", "'a\\'b'", '"`"', "'?'", "'!'"]
+                 "@", "a@b", "+x", "%d", "^a", "0b2", "1.", ".5", "1j", "1e", "e1", "a.b.c", "//", "a//b", "==", "!=".replace("!", "="), "<=", "-", "--", "=", "ñ", "é.txt", "x1y2", "__a__", "match", "case", "type", "_", "ﬁle", "µ", "ｆｏｏ.txt", "1º", "ªb", "ﬀ-x", "ǅ", "a|b", "2>", "1>&2", ">&", "a&b", "@@", "@a", "a@"]
+QUOTED_PIECES = ['"""first\nsecond"""', "'''x\n  y\nz'''", '"a\\\nb"', '"a b"', "'c'", '"x,y"', "'(z'", 'r"\\d"', '"]"', "b'q'", "u'u'", "''", '"$X"', "'#'", '"""t q"""', "R'''a'''", "'a\\'b'", '"`"', "'?'", "'!'"]
 _IDENT = _re.compile(r"[^\W\d]\w*")
 _KW = set(_keyword.kwlist)
 
@@ -483,7 +483,7 @@ def with_block(rnd, ind: str, depth=0) -> list[str]:
     for _ in range(rnd.randint(1, 4)):
         r = rnd.random()
         if r < 0.6 or depth >= 2:
-            ln = rnd.choice(["a b c", "x = 1", "echo $HOME > out.txt", "ls -la | grep 'x y'", "print(\"it's\")", "z = (1, 2)", "import os", "{'k': v}", "pass", "git commit -m 'm n'"])
+            ln = rnd.choice(["s = 'x\fy'", "t = 'p\x1cq'  # r\x85s", "u = '\u2028'", "a b c", "x = 1", "echo $HOME > out.txt", "ls -la | grep 'x y'", "print(\"it's\")", "z = (1, 2)", "import os", "{'k': v}", "pass", "git commit -m 'm n'"])
             lines.append(ind + ln)
         elif r < 0.7:
             lines.append(ind + rnd.choice(["# comment", "#c, (", "# 'quote"]))
